@@ -103,11 +103,44 @@ def stable(tts):
     return sorted(out)
 
 
+def big_code(variant):
+    """12 statements, every one decided by the grounded interpretation (chains of and/or/neg/xor over the two predecessors)"""
+    n = 12
+    tts = []
+    for s in range(n):
+        t = 0
+        for a in range(1 << n):
+            p1 = a >> ((s - 1) % n) & 1
+            p2 = a >> ((s - 2) % n) & 1
+            if s == 0:
+                v = 1 if variant % 2 == 0 else 0
+            elif s == 1:
+                v = 1 - p1 if variant % 3 else p1
+            else:
+                k = (s + variant) % 4
+                v = (p1 & p2, p1 | (1 - p2), p1 ^ p2, 1 - (p1 & p2))[k]
+            if v:
+                t |= 1 << a
+        tts.append(t)
+    return tuple(tts), ["s%d" % i for i in range(n)]
+
+
 STRATEGIES = [("Ground", "ground"), ("Complete", "complete"), ("Stable", "stable"), ("StableCountingA", "stable_counting_a"),
               ("StableCountingB", "stable_counting_b"), ("StableNogood", "stable_nogood")]
 
 
 def expected(tts):
+    if len(tts) > 4:
+        # large codes are chosen such that the grounded interpretation decides every statement: then it is the only
+        # complete model and the only candidate for a stable model
+        g = grounded(tts)
+        assert 2 not in g, "large codes must be decided by their grounded interpretation"
+        n = len(tts)
+        mask = sum(1 << i for i in range(n) if g[i] == 1)
+        red = [sum(1 << a for a in range(1 << n) if tt >> (a & mask) & 1) for tt in tts]
+        gr = grounded(red)
+        st = [g] if all(g[s] != 1 or gr[s] == 1 for s in range(n)) else []
+        return {"ground": [g], "complete": [g], "stable": st, "stable_counting_a": st, "stable_counting_b": st, "stable_nogood": st}
     st = stable(tts)
     return {"ground": [grounded(tts)], "complete": complete(tts), "stable": st, "stable_counting_a": st,
             "stable_counting_b": st, "stable_nogood": st}
